@@ -51,6 +51,7 @@ package transport
 // Server.ServeHTTP answers an escaped panic with 422 (known finding D32: the handler's own panics, e.g. from a custom
 // marshaler, do escape)
 //@   onexit @C09 panicked ==> calls(ResponseHandler) == 0
+//@   replay latePanicStatus.go.tmpl for onexit
 // C09: no body before the response headers (negotiated Content-Type, configured headers) are in place
 //@   callsite writeJson: requires calls(writeHeaders) >= 1
 //@   callsite writeJsonError: requires calls(writeHeaders) >= 1
@@ -129,6 +130,7 @@ package transport
 // Server.ServeHTTP answers an escaped panic with 422 (known finding D32: the handler's own panics, e.g. from a custom
 // marshaler, do escape)
 //@   onexit @C09 panicked ==> calls(ResponseHandler) == 0
+//@   replay latePanicStatus.go.tmpl for onexit
 // C09: no body before the response headers (negotiated Content-Type, configured headers) are in place
 //@   callsite writeJson: requires calls(writeHeaders) >= 1
 //@   callsite writeJsonError: requires calls(writeHeaders) >= 1
@@ -157,6 +159,7 @@ package transport
 // Server.ServeHTTP answers an escaped panic with 422 (known finding D32: the handler's own panics, e.g. from a custom
 // marshaler, do escape)
 //@   onexit @C09 panicked ==> calls(ResponseHandler) == 0
+//@   replay latePanicStatus.go.tmpl for onexit
 // C09: no body before the response headers (negotiated Content-Type, configured headers) are in place
 //@   callsite writeJson: requires calls(writeHeaders) >= 1
 //@   callsite writeJsonError: requires calls(writeHeaders) >= 1
@@ -191,6 +194,7 @@ package transport
 // Server.ServeHTTP answers an escaped panic with 422 (known finding D32: the handler's own panics, e.g. from a custom
 // marshaler, do escape)
 //@   onexit @C09 panicked ==> calls(ResponseHandler) == 0
+//@   replay latePanicStatus.go.tmpl for onexit
 // C09: no body before the response headers (negotiated Content-Type, configured headers) are in place
 //@   callsite writeJson: requires calls(writeHeaders) >= 1
 //@   callsite writeJsonError: requires calls(writeHeaders) >= 1
@@ -375,6 +379,7 @@ package transport
 // Server.ServeHTTP answers an escaped panic with 422 (known finding D32: the handler's own panics, e.g. from a custom
 // marshaler, do escape)
 //@   onexit @C09 panicked ==> calls(ResponseHandler) == 0
+//@   replay latePanicStatus.go.tmpl for onexit
 // upload limits: a file is buffered in memory only when the request's length is known and below MaxMemory
 //@   ghost mm = 0 - 1
 //@   at `f.maxMemory()` ghost mm = callres0
